@@ -121,6 +121,21 @@ CHECKS["C02"] = dict(
     technique="TLA+ spec (VyEmit over VyParser) model-checked by TLC + TLC validation of the observed transpiler output",
 )
 
+CHECKS["C18"] = dict(
+    text="VyEscape is the product of the transpiler's string-escaping loop with CPython's string-literal scanner, plus "
+         "the identifier sanitisers with their character classes extracted from the working tree; TLC checks for every "
+         "payload <= 3 over the adversarial alphabet that the literal never closes early and that only [A-Za-z0-9_] "
+         "survives in identifiers (MC_Escape). Payloads are injected at every slot kind and as raw programs into the "
+         "real transpile(); the AST of the result is projected and TLC decides, with the reference lexer, whether the "
+         "payload stayed inside its slot and then Prop_C18 (same Python shape as a benign payload; every identifier "
+         "outside the template vocabulary is VAR_/_lambda_ + [A-Za-z0-9_]*).",
+    note="Trusted: template vocabulary taken from the same tree's output on benign programs; AST projector in "
+         "harness/c18.py; code that does not compile executes nothing (C02's business).",
+    ref="DESIGN.md section 6 C18",
+    technique="TLA+ spec (VyEscape: escaper x literal scanner, identifier sanitiser) model-checked by TLC + TLC "
+              "validation of projected ASTs of transpile() output",
+)
+
 NOT_APPLICABLE = {}
 
 DEFAULT_NA = ("check under construction in this round; it will be claimed when its TLA+ module and "
